@@ -37,7 +37,7 @@ class Lit:
 
     def __invert__(self):
         if self.neg:
-            raise AnalysisError('double negation is not a literal')
+            return Obj('~~p', typ=T_OPERATED, operator=NEGATION, lhs=NP)
         return NP
 
     @property
